@@ -156,6 +156,15 @@ class LinearSystemComp(ImplicitComponent):
         size = self.options['size']
         vec_size = self.options['vec_size']
 
+        # solve_linear must use the factorization of the A this linearization is about; the one
+        # cached by solve_nonlinear is stale (or missing) when an outer solver moved the inputs
+        # without running solve_nonlinear.
+        if vec_size > 1:
+            self._lup = [linalg.lu_factor(inputs['A'][j] if self.vec_size_A > 1 else inputs['A'])
+                         for j in range(self.vec_size_A)]
+        else:
+            self._lup = linalg.lu_factor(inputs['A'])
+
         J['x', 'A'] = np.tile(x, size).flat
         if self.vec_size_A > 1:
             J['x', 'x'] = inputs['A'].flat
